@@ -50,9 +50,10 @@ def fam_SE(tier, **kw):
     L, D = (2, 6) if tier == "quick" else (3, 8)
     presets = [(MAXV - 1, 7), (7, MAXV - 2), (MAXV - 1, MAXV - 2), (MAXV, MAXV)]
     out = []
+    nm = lambda v: ("max%d" % (v - MAXV)) if v > 1000 else str(v)
     for (sg, ag) in presets:
         for c in ([2] if tier == "quick" else [1, 2]):
-            out.append(scen("S-E/slot%d/arch%d/cap%d" % (sg - MAXV, ag - MAXV, c), [THR], [c], L, D, preset=[sg, ag], iter_destroy=[THR], iter_destroy_max_n=2, key_kinds=[0, 1, 3], **kw))
+            out.append(scen("S-E/slot-%s/arch-%s/cap%d" % (nm(sg), nm(ag), c), [THR], [c], L, D, preset=[sg, ag], iter_destroy=[THR], iter_destroy_max_n=2, key_kinds=[0, 1, 3], **kw))
     return out
 
 
@@ -75,7 +76,13 @@ def fam_SG(tier, **kw):
            [scen("S-G3/caps000", [ONE, THR, FOU], [0, 0, 0], 2, 6, clear_events=True, iter_destroy=[100], iter_destroy_max_n=2, key_kinds=[0, 3], **kw)]
 
 
-FAMILIES = {"SA": fam_SA, "SB": fam_SB, "SC": fam_SC, "SD": fam_SD, "SE": fam_SE, "SF": fam_SF, "SG": fam_SG}
+def fam_SC32(tier, **kw):
+    """The 17-, 24- and 32-column archetypes (feature 32_components, arities [1,2,3,4,17,24,32] -> indices 4,5,6)."""
+    L, D = (2, 4) if tier == "quick" else (2, 6)
+    return [scen("S-C32/arity%d" % ar, [idx], [1], L, D, iter_destroy=[idx], iter_destroy_max_n=2, key_kinds=[0, 1, 3], **kw) for idx, ar in ((4, 17), (5, 24), (6, 32))]
+
+
+FAMILIES = {"SC32": fam_SC32, "SA": fam_SA, "SB": fam_SB, "SC": fam_SC, "SD": fam_SD, "SE": fam_SE, "SF": fam_SF, "SG": fam_SG}
 
 
 def journal_candidates(jdir):
